@@ -159,7 +159,7 @@ class Nativizer:
             except TypeError as e:
                 raise CannotNativize(f"cannot allocate {cls.__name__}: {e}")
             self.memo[key] = obj
-            fields = v.init if self.pre else v.fields
+            fields = v.init if (self.pre and v.lazy) else v.fields
             for name, fv in fields.items():
                 try:
                     object.__setattr__(obj, name, self.nat(fv))
